@@ -199,10 +199,30 @@ def rule_expand_order(ctx: Ctx, rule: str) -> None:
            norm_src(skip[0].test) if skip else 'none', witness="fnmatch('a', '@(a|b)', SPLIT|EXTMATCH): the `|` inside the group does not split")
 
 
-def _prologue_steps(fn_node: ast.AST) -> list[frozenset]:
-    """Sets of characters that the prologue of a `_sequence` scanner skips, in order, before its main loop."""
-    steps: list[frozenset] = []
+def _is_posix_call(n: ast.AST) -> bool:
+    if not isinstance(n, ast.Call):
+        return False
+    f = norm_src(n.func)
+    if f == 'self._handle_posix':
+        return True
+    return f == 'i.match' and bool(n.args) and norm_src(n.args[0]).endswith('RE_POSIX')
+
+
+def _char_test(t: ast.AST) -> set | None:
+    if isinstance(t, ast.Compare) and len(t.ops) == 1 and isinstance(t.left, ast.Name) and t.left.id == 'c':
+        c0 = t.comparators[0]
+        if isinstance(t.ops[0], ast.Eq) and isinstance(c0, ast.Constant):
+            return {c0.value}
+        if isinstance(t.ops[0], ast.In) and isinstance(c0, (ast.Tuple, ast.Set, ast.List)):
+            return {e.value for e in c0.elts if isinstance(e, ast.Constant)}
+    return None
+
+
+def scanner_description(fn_node: ast.AST) -> dict:
+    """Prologue stages ([(chars, posix-aware)] per if/elif chain) and posix awareness of the main loop of a `_sequence`."""
+    stages: list[list[tuple[frozenset, bool]]] = []
     started = False
+    loop_posix = False
     for st in fn_node.body:
         if isinstance(st, ast.Expr) and isinstance(st.value, ast.Constant):
             continue
@@ -211,64 +231,100 @@ def _prologue_steps(fn_node: ast.AST) -> list[frozenset]:
             continue
         if isinstance(st, ast.Assign):
             continue
-        if isinstance(st, ast.If) and started:
-            cur: ast.stmt | None = st
-            chars: set = set()
+        if isinstance(st, ast.If) and started and _char_test(st.test) is not None:
+            cur: Any = st
+            arms: list[tuple[frozenset, bool]] = []
             while isinstance(cur, ast.If):
-                t = cur.test
-                if isinstance(t, ast.Compare) and len(t.ops) == 1 and isinstance(t.left, ast.Name) and t.left.id == 'c':
-                    c0 = t.comparators[0]
-                    if isinstance(t.ops[0], ast.Eq) and isinstance(c0, ast.Constant):
-                        got = {c0.value}
-                    elif isinstance(t.ops[0], ast.In) and isinstance(c0, (ast.Tuple, ast.Set, ast.List)):
-                        got = {e.value for e in c0.elts if isinstance(e, ast.Constant)}
-                    else:
-                        raise AnalysisError('bracket prologue: test not understood')
-                else:
+                chars = _char_test(cur.test)
+                if chars is None:
                     raise AnalysisError('bracket prologue: test not understood')
-                advances = any(isinstance(s, ast.Assign) and norm_src(s.value) == 'next(i)' and norm_src(s.targets[0]) == 'c'
-                               for s in ast.walk(cur) if isinstance(s, ast.Assign) and s in cur.body)
+                advances = any(isinstance(s, ast.Assign) and norm_src(s.value) == 'next(i)' and norm_src(s.targets[0]) == 'c' for s in cur.body)
+                posix = any(_is_posix_call(x) for s in cur.body for x in ast.walk(s))
                 if advances:
-                    chars |= got
+                    arms.append((frozenset(chars), posix))
                 cur = cur.orelse[0] if len(cur.orelse) == 1 and isinstance(cur.orelse[0], ast.If) else None
-            steps.append(frozenset(chars))
+            stages.append(arms)
             continue
+        # main loop
+        for w in [x for x in ast.walk(st) if isinstance(x, ast.While)]:
+            for n in ast.walk(w):
+                if isinstance(n, ast.If) and _char_test(n.test) == {'['} and any(_is_posix_call(x) for s in n.body for x in ast.walk(s)):
+                    loop_posix = True
         break
-    return steps
+    return {'stages': stages, 'loop_posix': loop_posix}
 
 
-def _extent(steps: list[frozenset], text: str) -> int:
+def _posix_end(names: set[str], text: str, idx: int) -> int:
+    for nm in names:
+        tok = ':' + nm + ':]'
+        if text.startswith(tok, idx):
+            return idx + len(tok)
+    return -1
+
+
+def _extent(desc: dict, text: str, names: set[str]) -> int:
     """Index of the `]` that closes the bracket expression whose body is `text` (-1: unterminated)."""
     pos = 0
-    for s in steps:
-        if pos < len(text) and text[pos] in s:
-            pos += 1
-    return text.find(']', pos)
+    for arms in desc['stages']:
+        if pos >= len(text):
+            return -1
+        c = text[pos]
+        for chars, posix in arms:
+            if c in chars:
+                pos += 1
+                if posix and c == '[':
+                    e = _posix_end(names, text, pos)
+                    if e >= 0:
+                        pos = e
+                break
+    while pos < len(text):
+        c = text[pos]
+        if c == ']':
+            return pos
+        pos += 1
+        if c == '[' and desc['loop_posix']:
+            e = _posix_end(names, text, pos)
+            if e >= 0:
+                pos = e
+    return -1
+
+
+def _show_desc(d: dict) -> str:
+    return '; '.join('/'.join(''.join(sorted(ch)) + ('+posix' if px else '') for ch, px in arms) for arms in d['stages']) + \
+        ('; loop skips POSIX classes' if d['loop_posix'] else '; loop ignores POSIX classes')
 
 
 def rule_bracket_extents(ctx: Ctx, rule: str) -> None:
     ctx.text(rule, 'scanner agreement on bracket extents: the three _sequence scanners (WcParse, WcSplit, _GlobSplit) must agree on '
-                   'where a bracket expression ends; the prologue of each is extracted as a list of skip-sets and the position of the closing '
-                   '`]` is computed for 14 probe bodies (`]x]`, `!]x]`, `^]x]`, `-]`, `[]`, ...)')
+                   'where a bracket expression ends; from each the prologue (if/elif stages of skipped characters, POSIX awareness) and '
+                   'the POSIX awareness of the main loop are extracted and the position of the closing `]` is computed for 21 probe '
+                   'bodies (`]x]`, `!]x]`, `^]x]`, `-]`, `[:alpha:]x]`, ...)')
     repo = ctx.repo
     members = {'WcParse': repo.func(WP, 'WcParse._sequence'), 'WcSplit': repo.func(WP, 'WcSplit._sequence'),
                '_GlobSplit': repo.func('glob', '_GlobSplit._sequence')}
-    steps = {k: _prologue_steps(v.node) for k, v in members.items()}
-    for k, s in steps.items():
-        if not s:
+    from .c01 import _literal_alternatives
+    rp = repo.const(WP, 'RE_POSIX')
+    names = _literal_alternatives(rx.parse(rp.pattern, rp.flags).node)
+    if not names:
+        raise AnalysisError('RE_POSIX: class names not extractable')
+    desc = {k: scanner_description(v.node) for k, v in members.items()}
+    for k, d in desc.items():
+        if not d['stages']:
             raise AnalysisError(f'{k}._sequence: no bracket prologue found')
-    probes = [']x]', '!]x]', '^]x]', '-]', '[]', '!-]', '^-]', 'a]', '!a]', '^a]', '[x]', '-x]', '!^]', '^!]']
-    ref = {p: _extent(steps['WcParse'], p) for p in probes}
+    probes = [']x]', '!]x]', '^]x]', '-]', '[]', '!-]', '^-]', 'a]', '!a]', '^a]', '[x]', '-x]', '!^]', '^!]',
+              '[:alpha:]x]', '![:alpha:]|]', 'a[:digit:]|]', '[:alpha:]]', '[:alpha', '[:nope:]x]', '^[:space:]-]']
+    ref = {p: _extent(desc['WcParse'], p, names) for p in probes}
     for name in ('WcSplit', '_GlobSplit'):
         fi = members[name]
-        got = {p: _extent(steps[name], p) for p in probes}
+        got = {p: _extent(desc[name], p, names) for p in probes}
         diff = [p for p in probes if got[p] != ref[p]]
         ctx.ob(rule, f'{fi.module}:{name}._sequence/closing-bracket-agreement', not diff, repo.loc(fi.module, fi.node),
-               f'closes the expression on the same probes as WcParse._sequence (skip-sets {[sorted(x) for x in steps["WcParse"]]})',
-               f'skip-sets {[sorted(x) for x in steps[name]]}; disagrees after `[` + {diff}' if diff else 'agrees on all probes', note='F12',
-               witness="fnmatch.translate('[]|]', flags=SPLIT) yields two patterns although the `|` is inside a bracket expression")
-    ctx.ob(rule, 'siblings:WcSplit._sequence==_GlobSplit._sequence', steps['WcSplit'] == steps['_GlobSplit'], repo.loc('glob', members['_GlobSplit'].node),
-           'identical prologues', f"{[sorted(x) for x in steps['WcSplit']]} vs {[sorted(x) for x in steps['_GlobSplit']]}",
+               f'closes every probe body where WcParse._sequence does ({_show_desc(desc["WcParse"])})',
+               f'{_show_desc(desc[name])}; disagrees after `[` + {diff}' if diff else f'agrees on all {len(probes)} probes', note='F12',
+               witness="fnmatch.translate('[]|]', flags=SPLIT) and translate('[[:alpha:]|]', flags=SPLIT) yield two patterns although the `|` is inside a bracket expression")
+    ctx.count('bracket_probes', len(probes))
+    ctx.ob(rule, 'siblings:WcSplit._sequence==_GlobSplit._sequence', desc['WcSplit'] == desc['_GlobSplit'], repo.loc('glob', members['_GlobSplit'].node),
+           'identical prologues', f"{_show_desc(desc['WcSplit'])} vs {_show_desc(desc['_GlobSplit'])}",
            witness='glob and globmatch would split the same pattern differently')
     # member-by-member comparison of the two splitting scanners, modulo the declared difference (path mode)
     for meth in ('parse_extend',):
